@@ -93,7 +93,10 @@ def impl_of(ins, addr):
     return o
 
 
-def make_sim(mode, prog, regs=None, mem_words=None, mem_bytes=None, hazard=True, dcache=None, icache=None, pre_reset=False):
+NEIGHBOURS = []  # simulations kept alive next to the one under test
+
+
+def make_sim(mode, prog, regs=None, mem_words=None, mem_bytes=None, hazard=True, dcache=None, icache=None, pre_reset=False, style="plain"):
     """prog: list of abstract instructions placed at 0,4,8...; regs: {index: value};
     mem_words: {addr: 32-bit value}, mem_bytes: {addr: byte} — preloaded below any cache."""
     kw = {}
@@ -101,7 +104,21 @@ def make_sim(mode, prog, regs=None, mem_words=None, mem_bytes=None, hazard=True,
         kw["data_cache"] = dcache
     if icache is not None:
         kw["instruction_cache"] = icache
-    s = RiscvSimulation(mode=mode, detect_data_hazards=hazard, **kw)
+    if style == "via-state":
+        # the state is built on its own and handed to the simulation (as the repository's own tests do), without a mode argument
+        from architecture_simulator.uarch.riscv.riscv_architectural_state import RiscvArchitecturalState
+        skw = {}
+        if dcache is not None:
+            skw["data_cache_options"] = dcache
+        if icache is not None:
+            skw["instruction_cache_options"] = icache
+        s = RiscvSimulation(state=RiscvArchitecturalState(pipeline_mode=mode, detect_data_hazards=hazard, **skw))
+    else:
+        s = RiscvSimulation(mode=mode, detect_data_hazards=hazard, **kw)
+    if style == "neighbour":
+        # a second five-stage simulation with the OPPOSITE hazard switch is created afterwards and stays alive
+        del NEIGHBOURS[:]
+        NEIGHBOURS.append(RiscvSimulation(mode=FIVE, detect_data_hazards=not hazard))
     if pre_reset:
         # what every user-visible run has behind it: load_program resets both memory systems (and their caches)
         s.load_program("")
@@ -179,7 +196,7 @@ class RunResult:
 def retire_addr(sim):
     """Address of the instruction that retired in the step just taken (None if none)."""
     pr = sim.state.pipeline.pipeline_registers
-    if sim.mode == FIVE:
+    if len(pr) == 5:  # the pipeline that is actually stepped decides, not the simulation's mode argument
         r = pr[4]
         if isinstance(r.instruction, EmptyInstruction):
             return None
@@ -194,7 +211,7 @@ def run(sim, maxsteps, extra_addrs=(), per_step=None):
     err_repr = None
     exc = None
     n = 0
-    five = sim.mode == FIVE
+    five = len(sim.state.pipeline.pipeline_registers) == 5
     pm = sim.state.performance_metrics
     try:
         while not sim.is_done() and n < maxsteps:
